@@ -1,5 +1,5 @@
 """Shared machinery for the cif_api verification checks: builds, TLC runs, cifrun batches, evidence, findings."""
-import json, os, subprocess, sys, time, hashlib, tempfile, shutil, re, random, itertools
+import json, os, subprocess, sys, time, hashlib, tempfile, shutil, re, random, itertools, threading
 from concurrent.futures import ThreadPoolExecutor
 
 VERIF = os.path.dirname(os.path.dirname(os.path.abspath(__file__)))
@@ -9,6 +9,7 @@ EVID = os.path.join(VERIF, "evidence")
 REPLAYS = os.path.join(VERIF, "replays")
 NCPU = int(os.environ.get("VERIF_JOBS", "0")) or (os.cpu_count() or 4)
 SEED = int(os.environ.get("VERIF_SEED", "1") or 1)
+SUBRUN = bool(os.environ.get("VERIF_SUBRUN"))     # executed on behalf of C16: only the ledger log matters
 
 
 class Infra(Exception):
@@ -55,7 +56,7 @@ def run_tlc(module, cfg_text, tag, workers=None, timeout=3000, extra=None, env=N
            "tlc2.TLC"]
     # use the wrapper if present: it knows the right classpath
     cmd = ["tlc"]
-    cmd += ["-workers", str(workers or NCPU), "-metadir", os.path.join(wd, "meta"), "-config", cfg]
+    cmd += ["-noGenerateSpecTE", "-workers", str(workers or NCPU), "-metadir", os.path.join(wd, "meta"), "-config", cfg]
     if simulate:
         cmd += ["-simulate", simulate]
     if extra:
@@ -132,7 +133,14 @@ class RunResult:
 
 
 def run_cifrun(binary, cmds, timeout=120, env=None):
-    """Execute a list of command dicts in one cifrun process."""
+    """Execute a list of command dicts in one cifrun process.  In ledger mode (C16 sub-runs, VERIF_LEDGER_DIR set) the
+    same execution additionally records the ownership / environment / outcome log that CifLedger.tla validates."""
+    if LEDGER_DIR and binary.find("asan-") >= 0:
+        return _run_ledger(binary, cmds, timeout, env)
+    return _run_cifrun(binary, cmds, timeout, env)
+
+
+def _run_cifrun(binary, cmds, timeout=120, env=None):
     data = "\n".join(json.dumps(c, ensure_ascii=True) for c in cmds) + "\n"
     e = dict(os.environ)
     e["ASAN_OPTIONS"] = "detect_leaks=1:abort_on_error=0:exitcode=71:allocator_may_return_null=1:detect_stack_use_after_return=0"
@@ -160,6 +168,80 @@ def run_cifrun(binary, cmds, timeout=120, env=None):
     if len(err) > 9000:
         err = err[:6000] + "\n...\n" + err[-2500:]
     return RunResult(outs, p.returncode, err)
+
+
+# ---- ledger mode --------------------------------------------------------------------------------------------------
+LEDGER_DIR = os.environ.get("VERIF_LEDGER_DIR")
+LEDGER_ENV = os.environ.get("VERIF_LEDGER_ENV")          # JSON object for a leading {"op":"setenv", ...}
+LEDGER_TRIPLE = int(os.environ.get("VERIF_LEDGER_TRIPLE", "0") or 0)   # every n-th batch is executed three times (growth probe)
+_ledger_lock = threading.Lock()
+_ledger_count = [0]
+
+
+def _handles(xs):
+    return list(xs or [])
+
+
+def ledger_events(outs, ncmds_expected, rc, timed_out, stderr, batch):
+    """Project cifrun outputs to the event log of CifLedger.tla (no judgement here)."""
+    ev = []
+    quiet = 0
+    for o in outs:
+        op = o.get("op", "?")
+        if op == "ledger":
+            if "mark" in o:
+                ev.append({"e": "mark", "m": o["mark"], "b": batch})
+            continue
+        lg = o.get("lg") or {}
+        envch = 1 if "env_after" in o else 0
+        if op == "reset":
+            ev.append({"e": "reset", "op": op, "a": _handles(lg.get("a")), "r": _handles(lg.get("r")), "env": envch, "leak": int(o.get("leak", 0) or 0),
+                       "live": int(o.get("live", 0) or 0) // 16, "q": quiet, "b": batch})
+            quiet = 0
+        elif lg or envch:
+            ev.append({"e": "call", "op": op, "a": _handles(lg.get("a")), "r": _handles(lg.get("r")), "env": envch, "q": quiet, "b": batch,
+                       "envs": "%s -> %s" % (o.get("env_before"), o.get("env_after")) if envch else ""})
+            quiet = 0
+        else:
+            quiet += 1
+    if timed_out:
+        out = "timeout"
+    elif rc != 0 or len(outs) < ncmds_expected:
+        out = "abort"
+    else:
+        out = "normal"
+    ev.append({"e": "end", "out": out, "sig": sanitizer_signature(stderr) if out == "abort" else "", "n": len(outs), "q": quiet, "b": batch})
+    return ev
+
+
+def _run_ledger(binary, cmds, timeout, env):
+    with _ledger_lock:
+        _ledger_count[0] += 1
+        n = _ledger_count[0]
+    batch = "%d-%d" % (os.getpid(), n)
+    pre = [{"op": "ledger", "on": 1}]
+    if LEDGER_ENV:
+        pre.append(dict(json.loads(LEDGER_ENV), op="setenv"))
+    triple = LEDGER_TRIPLE and n % LEDGER_TRIPLE == 0 and not any(c.get("op") == "setenv" for c in cmds)
+    allc = pre + list(cmds) + [{"op": "reset"}]
+    if triple:
+        allc += list(cmds) + [{"op": "reset"}, {"op": "ledger", "mark": "base"}] + list(cmds) + [{"op": "reset"}, {"op": "ledger", "mark": "probe"}]
+    rr = _run_cifrun(binary, allc, timeout * (3 if triple else 1), env)
+    ev = ledger_events(rr.outs, len(allc), rr.rc, rr.timed_out, rr.stderr, batch)
+    interesting = any((e["e"] == "end" and e["out"] == "abort") or (e["e"] == "reset" and e["leak"]) or e.get("env") for e in ev) or triple
+    with _ledger_lock:
+        with open(os.path.join(LEDGER_DIR, "events-%d.ndjson" % os.getpid()), "a") as f:
+            for e in ev:
+                f.write(json.dumps(e) + "\n")
+        if interesting:
+            with open(os.path.join(LEDGER_DIR, "batch-%s.json" % batch), "w") as f:
+                json.dump({"cmds": allc, "stderr": rr.stderr[-6000:], "rc": rr.rc}, f)
+    # the caller sees its own commands' outputs only (first execution)
+    first = rr.outs[len(pre):len(pre) + len(cmds)]
+    if triple and len(rr.outs) >= len(pre) + len(cmds):
+        # a crash in a repetition is C16's business, not the caller's
+        return RunResult(first, 0, "", False)
+    return RunResult(first, rr.rc, rr.stderr, rr.timed_out)
 
 
 def sanitizer_signature(stderr):
@@ -225,6 +307,10 @@ class Report:
             self.drift.append(what)
 
     def finish(self, coverage, assumptions=None):
+        if os.environ.get("VERIF_SUBRUN"):
+            # executed on behalf of another check (C16 ledger runs): no evidence, no verdict lines
+            log("[subrun %s] %d candidate violations ignored here" % (self.prop, len(self.violations)))
+            return 0
         os.makedirs(EVID, exist_ok=True)
         os.makedirs(REPLAYS, exist_ok=True)
         wall = round(time.time() - self.t0, 2)
